@@ -1,5 +1,5 @@
 """C16 - compiled bytecode behaves like the tree-walking evaluator."""
-from . import machine
+from . import machine, vmtrace
 
 replay_one = machine.replay_one
 
@@ -20,4 +20,6 @@ def run(chk):
     chk.nontrivial = {machine.text_of(c["src"]) for c in accepted}
     chk.extra["compiler_accepted"] = len(accepted)
     chk.extra["compiler_rejected"] = len(rejected)
+    # direction B: the step traces of the real VM on these programs against the instruction-set specification
+    vmtrace.run(chk, [(c["id"], machine.text_of(c["src"])) for c in cases])
     chk.assumptions += ["division or modulo by zero may be ErrDivideByZero on the VM (as the property states)"]
